@@ -24,7 +24,7 @@ ASSUMPTIONS = [
 ]
 REQUIRED = {"op.append": 200, "op.extend": 100, "op.iterate.nested": 100, "op.iterate.zip": 50, "op.iterate.abandoned": 50,
             "op.write-through": 200, "op.dump": 100, "op.serialise": 50, "inspect": 3000, "view.checked": 3000,
-            "op.slice": 50, "view.held-checked": 300, "op.write-through.held": 30, "construct.list": 20, "construct.molecule": 20, "construct.ensemble": 20, "construct.atoms": 20}
+            "op.slice": 50, "view.held-checked": 300, "op.grow-refused": 30, "source.checked": 300, "op.write-through.held": 30, "construct.list": 20, "construct.molecule": 20, "construct.ensemble": 20, "construct.atoms": 20}
 CHUNK_TIMEOUT = 900
 TECHNIQUE = "runtime monitoring: rectangular-array reference model stepped beside the real ensemble + iteration-pattern oracle"
 LEVEL_TEXT = ("Held on the operation histories produced: after every operation the ensemble's three arrays, every conformer view "
@@ -124,6 +124,7 @@ class Driver:
         self.ok = True
         self.grown_at = None
         self.held = []          # (row, conformer object) taken earlier and kept across later operations
+        self.sources = []       # (geometry that was appended / extended with, copy of its coordinates): must stay untouched
 
     def v(self, key, **detail):
         self.ok = False
@@ -144,6 +145,11 @@ class Driver:
         for name, got, wnt in (("coords", e.coords, m.coords), ("atomic_charges", e.atomic_charges, m.charges), ("weights", e.weights, m.weights)):
             if not close(got, wnt, exact):
                 return self.v(f"{after}:{name}-differ-from-expected")
+        # the geometries the ensemble was grown with are independent of it
+        for g, c0 in self.sources:
+            ctx.count("source.checked")
+            if not close(g.coords, c0, True):
+                return self.v(f"{after}:geometry-that-was-appended-changes-with-the-ensemble")
         # conformers taken earlier stay live views of their row (also after the ensemble grew or moved)
         for row, c in self.held:
             ctx.count("view.held-checked")
@@ -209,6 +215,8 @@ class Driver:
                 self.kinds.append(f"append:{gk}")
                 ctx.count("op.append")
                 e.append(g)
+                self.sources.append((g, np.array(c, copy=True)))
+                del self.sources[:-3]
                 m.coords = np.concatenate([m.coords, c[None]], axis=0)
                 m.charges = np.concatenate([m.charges, q[None]], axis=0)
                 m.weights = np.concatenate([m.weights, [1.0]])
@@ -221,6 +229,8 @@ class Driver:
                     gs = [self.geometry_like(rng, rng.choice(["Molecule", "Structure"])) for _ in range(k)]
                     self.kinds.append(f"extend:list{k}")
                     e.extend([g for g, _, _ in gs])
+                    self.sources.append((gs[0][0], np.array(gs[0][1], copy=True)))
+                    del self.sources[:-3]
                     m.coords = np.concatenate([m.coords] + [c[None] for _, c, _ in gs], axis=0)
                     m.charges = np.concatenate([m.charges] + [q[None] for _, _, q in gs], axis=0)
                     m.weights = np.concatenate([m.weights, np.ones(k)])
@@ -236,6 +246,35 @@ class Driver:
                     m.charges = np.concatenate([m.charges, oq], axis=0)
                     m.weights = np.concatenate([m.weights, ow])
                 self.grown_at = len(self.kinds)
+            elif r < 0.29 and m.na >= 1:
+                # a geometry with another atom count must be refused and must leave the ensemble as it was
+                kind = "grow-with-wrong-atom-count"
+                ctx.count("op.grow-refused")
+                wrong = ml.Molecule(["C"] * (m.na + 1), coords=np.zeros((m.na + 1, 3)))
+                how = rng.choice(["append", "extend-list", "extend-generator", "extend-ensemble"])
+                self.kinds.append(f"bad-{how}")
+                try:
+                    if how == "append":
+                        e.append(wrong)
+                    elif how == "extend-list":
+                        g0, _, _ = self.geometry_like(rng, "Molecule")
+                        e.extend([g0, wrong])
+                    elif how == "extend-generator":
+                        e.extend(x for x in [wrong])
+                    else:
+                        e.extend(ml.ConformerEnsemble(wrong, n_conformers=2))
+                except Exception:  # noqa
+                    pass
+                # whatever the refusal did: the three arrays must still be rectangular and the old conformers untouched
+                # (conformers of the valid part of a list may or may not have been added)
+                cs, qs, ws = np.asarray(e.coords), np.asarray(e.atomic_charges), np.asarray(e.weights)
+                n_now = cs.shape[0] if cs.ndim == 3 else -1
+                if cs.shape != (n_now, m.na, 3) or qs.shape != (n_now, m.na) or ws.shape != (n_now,) or n_now < m.nc:
+                    return self.v(f"bad-{how}:refused-growth-leaves-arrays-not-rectangular",
+                                  got=[list(cs.shape), list(qs.shape), list(ws.shape)], want_conformers_at_least=m.nc)
+                if not (close(cs[:m.nc], m.coords, True) and close(qs[:m.nc], m.charges, True) and close(ws[:m.nc], m.weights, True)):
+                    return self.v(f"bad-{how}:refused-growth-alters-existing-conformers")
+                m.coords, m.charges, m.weights = np.array(cs), np.array(qs), np.array(ws)
             elif r < 0.32:
                 kind = "scale"
                 f = rng.choice([2.0, 0.5, 1.5])
